@@ -22,4 +22,14 @@ theorem between_ill_posed_eq (c : Curve α (V2 α)) (l0 l1 : α) (wrap : Bool) :
 /-- the last index the walk of the model's `betweenRaw` may visit is the regenerated one -/
 theorem between_last_index_eq (c : Curve α (V2 α)) :
     GenRs.between_last_index c = c.betweenLastIndex := rfl
+
+/-- `trim_front(l)` is the portion from `l` to the end, `trim_back(l)` the portion from the start to `L - l` -/
+theorem trim_front_eq (c : Curve α (V2 α)) (l : α) : GenRs.trim_front c l = c.between l c.length := rfl
+theorem trim_back_eq (c : Curve α (V2 α)) (l : α) : GenRs.trim_back c l = c.between 0 (c.length - l) := rfl
+
+/-- `Curve2::reversed` rebuilds the curve from its reversed vertices through `from_points` (so that its
+    table of cumulative lengths is computed afresh); the model keeps the `Option` the Rust code unwraps -/
+theorem reversed_eq (c : Curve α (V2 α)) (hb : c.blend = true) : GenRs.reversed c = c.reversed := by
+  unfold GenRs.reversed Curve.reversed
+  rw [hb]
 end C04T
